@@ -1,8 +1,73 @@
-import DarkluaModel.Util.Sexp
-/-! Line-protocol handlers for property C16 (stub: nothing modelled yet). -/
+import DarkluaModel.Shared.AstSexp
+import DarkluaModel.Shared.FloatOps
+import DarkluaModel.Rules.GroupLocal
+import DarkluaModel.Rules.NoLocalFunction
+import DarkluaModel.Rules.FunctionToAssign
+import DarkluaModel.Rules.RemoveMethodCall
+import DarkluaModel.Rules.ConvertSquareRootCall
+/-!
+Line-protocol handlers for property C16:
+* `c16.rule <rule-name-hex> <block>` → transformed block | `unmodelled` | `unknown-rule` | `bad-request`
+* `c16.rules` → the modelled rule names
+* `c16.h <rule-name-hex> <block>` → `true`/`false`: is the program inside the decidable hypothesis
+  of the rule's `_partial` theorem (`true` for the rules whose theorem has none)
+* `c16.mentions <name-hex> <block>` → `true`/`false`: `FindVariables(name)` over the block
+* `c16.sqrtlaw <f64 wire>` → `true`/`false`: does `sqrt x = pow x 0.5` hold bit-exactly for this
+  double on the executable `NumOps` instance (the hypothesis of `sqrt_call_exact`, per value)
+-/
 namespace DarkluaModel.C16
 
-def handle (op : String) (_args : List String) : String :=
-  "unknown-op " ++ op
+def ruleNames : List String :=
+  ["group_local_assignment", "convert_local_function_to_assign", "convert_function_to_assignment",
+   "remove_method_call", "convert_square_root_call"]
+
+/-- `none`: unknown rule; `some none`: the model does not cover this input -/
+def applyRule (name : String) (b : Block) : Option (Option Block) :=
+  match name with
+  | "group_local_assignment" => some (some (Rules.GroupLocal.apply b))
+  | "convert_local_function_to_assign" => some (some (Rules.NoLocalFunction.apply b))
+  | "convert_function_to_assignment" => some (some (Rules.FunctionToAssign.apply b))
+  | "remove_method_call" => some (some (Rules.RemoveMethodCall.apply b))
+  | "convert_square_root_call" => some (Rules.ConvertSquareRootCall.apply b)
+  | _ => none
+
+def hypothesis (name : String) (b : Block) : Option Bool :=
+  match name with
+  | "group_local_assignment" => some (Rules.GroupLocal.programOk b)
+  | "remove_method_call" => some (Rules.RemoveMethodCall.receiversStable b)
+  | "convert_local_function_to_assign" | "convert_function_to_assignment" | "convert_square_root_call" => some true
+  | _ => none
+
+def boolTok (b : Bool) : String := if b then "true" else "false"
+
+def handle (op : String) (args : List String) : String :=
+  match op, Sexp.parseArgs args with
+  | "rule", some [name, block] =>
+    match nameOfSexp? name, Block.ofSexp? block with
+    | some n, some b =>
+      match applyRule n b with
+      | some (some b') => b'.toSexp.toString
+      | some none => "unmodelled"
+      | none => "unknown-rule"
+    | _, _ => "bad-request"
+  | "rules", _ => " ".intercalate ruleNames
+  | "h", some [name, block] =>
+    match nameOfSexp? name, Block.ofSexp? block with
+    | some n, some b =>
+      match hypothesis n b with
+      | some r => boolTok r
+      | none => "unknown-rule"
+    | _, _ => "bad-request"
+  | "mentions", some [name, block] =>
+    match nameOfSexp? name, Block.ofSexp? block with
+    | some n, some b => boolTok (Rules.FindVariables.mB [n] b)
+    | _, _ => "bad-request"
+  | "sqrtlaw", some [.atom w] =>
+    match wireToFloat? w with
+    | some x =>
+      boolTok (floatOps.toBits (floatOps.sqrt x)
+        == floatOps.toBits (floatOps.pow x (floatOps.ofBits Rules.ConvertSquareRootCall.halfBits)))
+    | none => "bad-request"
+  | _, _ => "unknown-op " ++ op
 
 end DarkluaModel.C16
